@@ -70,7 +70,7 @@ def build_cases(tier, backend):
         add("float", "compare", t, per.format(f"j.pt() > {t}"), ("value", 2.5 > v))
         add("float", "column", t, per.format(t), ("bits", v))
     # the same numbers as ONE constant node (a captured python variable): negative values are not a unary minus then
-    for t in [repr(v) for v in INTS if abs(v) < 2 ** 31] + ["-2.5", "-0.5", "0.5", "-1e-07", "-123456789.125", "-1e+22"]:
+    for t in [repr(v) for v in INTS if abs(v) < 2 ** 31] + ["-2.5", "-0.5", "0.5", "-1e-07", "-123456789.125", "-1e+22", "-0.0", "0.0"]:
         v = ast.literal_eval(t)
         kc = f"vm_const({t})"
         add("captured", "arith-right-minus", t, per.format(f"j.pt() - {kc}"), ("value", 2.5 - v))
@@ -80,7 +80,10 @@ def build_cases(tier, backend):
         add("captured", "arith-chain", t, per.format(f"j.pt() - {kc} - {kc}"), ("value", 2.5 - v - v))
         add("captured", "literal-minus-literal", t, per.format(f"j.pt() * 0 + (2 - {kc})"), ("value", 2.5 * 0 + (2 - v)))
         add("captured", "unary-minus", t, per.format(f"j.pt() * 0 + (-{kc})"), ("value", 2.5 * 0 + (-v)))
-        add("captured", "echo-arg", t, per.format(f"j.echoD({kc})"), ("value", float(v)))
+        add("captured", "echo-arg", t, per.format(f"j.echoD({kc})"), ("bits", float(v)) if isinstance(v, float) else ("value", float(v)))
+        if isinstance(v, float):
+            add("captured", "column", t, per.format(kc), ("bits", v))
+            add("captured", "times-one", t, per.format(f"j.echoD({kc} * 1)"), ("bits", v * 1))
         add("captured", "compare", t, per.format(f"j.pt() > {kc}"), ("value", 2.5 > v))
     for t in ("True", "False"):
         v = t == "True"
